@@ -299,6 +299,7 @@ func cTCPInto(ctx *Ctx, prop string, nCases int, shard0 int) {
 				sp = cs.Conns[0]
 				sp.Fin = r.Bool()
 				sp.TFinFirst = false
+				sp.CReset, sp.TReset, sp.SlowStartMs = false, false, 0 // endings scripted for a relayed connection do not apply to a refused one
 			}
 			cs.Conns = append(cs.Conns, sp)
 		}
